@@ -90,7 +90,7 @@ class C06(fw.Property):
     coq_props = "Props/C06.v"
     gen_jobs = ["block_kernels"]     # owned by translate/jobs/c05.py; used for the _extract_block / size / start tie (Proofs/C06Kernel.v)
     model_imports = ["Verif.Model.C06"]
-    quick_budget = 260
+    quick_budget = 400
     thorough_budget = 8000
     design_ref = "DESIGN.md section 11"
     technique = ("Coq proofs over a hand-written executable model of Block1Spool/Block2Cache/TimeoutDict/_render_to_pipe (invariants over all "
@@ -102,7 +102,7 @@ class C06(fw.Property):
                   "access histories. The model is tied to the code by running both on the same request/idle-time histories through the real Context+Site+Resource stack.")
     level_note = ("Hand-written model (no translated kernel); handlers are atomic (render does not yield), so overlapping renderings are outside the model. "
                   "The lifetime bounds are proved for TimeoutDict histories; their use by spool/cache is covered by correspondence and oracle only. "
-                  "Refuted and reported: 'rendering of the LATEST block-0 request' (finding C06:block2-stale-rendering). Length check applies to M=1 continuations only (as in the code).")
+                  "Finding C06:block2-stale-rendering is fixed in /repo (d768e89); the model has the eviction and the 'latest block-0 rendering' clause is a theorem. Length check applies to M=1 continuations only (as in the code).")
     rule = ("stream block_sequences: 1..4 planned transfers (Block1 uploads with optional Block2 of the response, Block2 downloads; szx 0-2 mostly, rarely 6/7/BERT) "
             "from 1..3 endpoints (max payload 1124/64/40/1152) on 3 resources (one PathCapable with sub-paths), each transfer perturbed with p=0.7 (skip, repeat, restart at 0, "
             "last first, reversed, wrong payload size, size exponent change, block number off, more-flag flipped, cache-key option / method / endpoint changed), steps interleaved "
@@ -175,9 +175,9 @@ class C06(fw.Property):
                 t += ev["dt"]
                 for r in range(NRES):
                     for name, table, col in (("assemblies", asm, 0), ("renderings", rend, 1)):
-                        ents = [e for k, e in table.items() if k[0] == r and (col == 0 or e["stored"] or e["old"])]
+                        ents = [e for k, e in table.items() if k[0] == r and (col == 0 or e["stored"])]
                         hi = sum(1 for e in ents if t < e["any"] + 2 * T)
-                        lo = sum(1 for e in ents if t < e["ok"] + T and (col == 0 or e["stored"]))
+                        lo = sum(1 for e in ents if t < e["ok"] + T)
                         n = o["sizes"][r][col]
                         if n > hi: return ("C06:state-not-discarded", "event %d: resource %d holds %d %s at t=%d but only %d were used within the last 2*MAX_TRANSMIT_WAIT" % (idx, r, n, name, t, hi))
                         if n < lo: return ("C06:state-lost-early", "event %d: resource %d holds %d %s at t=%d but %d were used within the last MAX_TRANSMIT_WAIT" % (idx, r, n, name, t, lo))
